@@ -43,6 +43,9 @@ def sessions_for(exe, tier, seed):
                                    params=dict(rcvbuf_r=rb, rcvbuf_l=rng.choice([4096, 61440]), finack_l=1, finack_r=1,
                                                sndbuf_l=rng.choice([4096, 65536, 1 << 20])))
     H = H + P.gen_parallel(exe, [f"C09/s/{base + i}" for i in range(ns)], fs)
+    # graceful close with queued data on sockets without FIN-ACK support
+    H = H + P.gen_parallel(exe, [f"C09/c/{base + i}" for i in range(max(ns // 2, 8))],
+                           lambda live, rng: P.c09_noack_close_session(live, rng))
     # networks that never heal: only the finite-deadline conjunct applies
     N = P.gen_parallel(exe, [f"C09/n/{base + i}" for i in range(max(n // 6, 4))],
                        lambda live, rng: P.c09_session(live, rng, heal_at=rng.choice([30000, 120000]), never_heal=True))
